@@ -74,6 +74,17 @@ def main():
                  meta.get('demo_on_changed_tree', {}).get('exit') not in (0, None) and
                  ' passed' in str(meta.get('suite_on_changed_tree')) and 'failed' not in str(meta.get('suite_on_changed_tree')))
     meta['confirmed'] = bool(confirmed)
+    old_path = os.path.join(dest, 'meta.json')
+    if os.path.exists(old_path):
+        # keep what earlier versions of the checks did with this change (misses are why checks were extended)
+        old = json.load(open(old_path))
+        hist = old.get('history', [])
+        if old.get('checks'):
+            hist.append({'when': old.get('when'), 'repo_head': old.get('repo_head'),
+                         'checks': {c: {'caught': v.get('caught'), 'keys': v.get('keys', [])[:2]}
+                                    for c, v in old['checks'].items()}})
+        if hist:
+            meta['history'] = hist
     with open(os.path.join(dest, 'meta.json'), 'w') as f:
         json.dump(meta, f, indent=1)
     caught = {c: v['caught'] for c, v in meta.get('checks', {}).items()}
